@@ -493,6 +493,12 @@ impl Memfs {
                 continue;
             }
 
+            // Copying onto an existing link writes through to what it points to
+            let dst_path = match guard.get_entry(&dst_path) {
+                Some(x) if x.is_symlink() && !src.is_symlink() => x.alt_buf(),
+                _ => dst_path,
+            };
+
             // Recreate links if were not following them
             if !cp.follow && src.is_symlink() {
                 // Copying into a directory might require creating it first
